@@ -251,6 +251,49 @@ func (ex *Exec) finishPath(st *State) {
 }
 
 // smallModel returns a model of the current pc, preferring small sizes for blobs/iotas so that native replay is cheap.
+// preferSmall: a counterexample whose blob / list lengths are small enough for a native replay (vhIota refuses
+// more than 2^24 elements) is preferred; `first` is returned when the solvers find none within 5 s per attempt.
+func (ex *Exec) preferSmall(st *State, extra *Term, first Model) Model {
+	var lens []*Term
+	for _, in := range st.inputs {
+		if (in.Kind == "BlobLen" || in.Kind == "IotaLen") && in.Vars[0].W > 16 {
+			lens = append(lens, in.Vars[0])
+		}
+	}
+	if len(lens) == 0 {
+		return first
+	}
+	for _, bound := range []uint64{1 << 12, 1 << 20} {
+		small := extra
+		if small == nil || small.IsTrue() {
+			small = tTrue
+		}
+		already := true
+		for _, v := range lens {
+			small = ex.tt.And(small, ex.tt.Ult(v, C(v.W, bound)))
+			if first[v.Name] >= bound {
+				already = false
+			}
+		}
+		if already {
+			return first
+		}
+		r := ex.checkT(st.pc, small, 5000)
+		if r == Sat {
+			var m Model
+			if ex.lastFromAlt {
+				m = ex.alt.GetModel(ex.tt.Vars)
+			} else {
+				m = ex.solver.GetModel(ex.tt.Vars)
+			}
+			ex.donePending()
+			return m
+		}
+		ex.donePending()
+	}
+	return first
+}
+
 func (ex *Exec) smallModel(st *State) Model {
 	var small *Term = tTrue
 	for _, in := range st.inputs {
